@@ -13,7 +13,7 @@ RULE = ("Same generated concurrent histories as C01 with small limits (max_conne
 
 PROP = Prop(
     "C07", level="exploration", rule=RULE,
-    layers=[Layer("histories", strategy=lambda: scenarios(max_callers=5, limits=(1, 1, 1, 2)), execute=make_execute("C07"),
+    layers=[Layer("histories", stall_is_violation=True, strategy=lambda: scenarios(max_callers=5, limits=(1, 1, 1, 2)), execute=make_execute("C07"),
                   budget={"quick": 3000, "thorough": 60000})],
     assumptions=["liveness is decided as deadlock-freedom plus the quiescence invariant in a closed simulated world with a fair fallback scheduler",
                  "queued requests are read from the pool's request list (pool._requests / is_queued()); the deadlock oracle does not need it",
